@@ -1,26 +1,22 @@
 """Property table: participant-level timing/status properties (C27, C28, C29, C30, C33)."""
 from ..props import prop
 
-# Per-loop bounds for library/constructor loops whose trip count is a constant of the code, not a bound of the check
-# (unwinding assertions stay on for every loop: a label that no longer matches makes the run inconclusive, never a pass):
-#  * memcmp.0            - CBMC's builtin memcmp ([u8;16] handle / String equality): 16 bytes + exit test,
-#  * StatusMask::from_iter over the 13 StatusKinds in DcpsStatusCondition::default() (every entity constructor),
-#  * u64::overflowing_pow (10^9 constants of the time arithmetic).
-# The harness attribute #[kani::unwind(n)] bounds every other loop (entity/instance/change lists of <= n-1 elements).
-_FROM_ITER = ("_RINvXs_NtNtCs36Lg0Iv5OGD_8dust_dds4dcps11status_maskNtB5_10StatusMaskINtNtNtNtCs8xvirJzNMvV_4core4iter6traits7collect"
-              "12FromIteratorRNtNtNtB7_14infrastructure6status10StatusKindE9from_iterINtNtNtB1e_5slice4iter4IterB26_EEB9_.0")
-_POW = "_RNvMs7_NtCs8xvirJzNMvV_4core3numy15overflowing_powCs36Lg0Iv5OGD_8dust_dds"
-#  * the `registered_notifications.drain(..)` loop of DcpsStatusCondition::add_communication_state: bound 1 = "the loop body
-#    must be unreachable" (no WaitSet is attached in these harnesses); checked by the unwinding assertion.
-_ACS = "_RNvMs_NtNtCs36Lg0Iv5OGD_8dust_dds4dcps16status_conditionNtB4_19DcpsStatusCondition23add_communication_state.0"
-_CBMC = ["--unwindset", "memcmp.0:17,%s:15,%s.0:7,%s.1:7" % (_FROM_ITER, _POW, _POW)]
+_CBMC = ["--unwindset", "memcmp.0:17"]
+# The harness attribute #[kani::unwind(n)] bounds entity/instance/change lists (<= n-1 elements); the few library /
+# constructor loops whose trip count is a constant of the code get their own bound, looked up by function-name pattern in the
+# goto binaries of the run (unwinding assertions stay on for every loop).
+_UNWIND = [
+    (r"StatusMask as std::iter::FromIterator", 14),   # DcpsStatusCondition::default(): 13 status kinds
+    (r"overflowing_pow", 8),
+]
 
 for _pid in ("C30", "C29", "C33", "C27", "C28"):
     prop(
         _pid,
         level="other",
         explanation="(in progress)", bounds="", outside="", level_text="", level_note="", technique="", assumptions=[],
-        timeout={"quick": 600, "thorough": 600},
-        mem_gb=8,
+        timeout={"quick": 900, "thorough": 900},
+        mem_gb=12,
         cbmc_args=_CBMC,
+        unwind_patterns=_UNWIND,
     )
